@@ -553,6 +553,7 @@ func (g *clientGen) history(prop string) KCase {
 		c.Seq0 = g.rng.Uint32()
 	}
 	c.CloseFail = g.rng.Intn(15) == 0
+	c.WrapErrno = g.rng.Intn(8) == 0
 	n := 1 + g.rng.Intn(9)
 	if g.rng.Intn(10) == 0 {
 		n += g.rng.Intn(12)
@@ -720,6 +721,13 @@ func (g *clientGen) fixedCases() []KCase {
 				{K: "setratelimit", V: 7, WM: 2, Plans: []simkernel.Plan{{Items: append(append([]simkernel.Item{}, tr...), g.ack(0))}}}, {K: "wait"}, {K: "wait"}}, after...)})
 			out = append(out, KCase{Kind: "history", BufLen: 64, Ops: append([]KOp{
 				{K: "getstatus", Plans: []simkernel.Plan{{Items: append(append(append([]simkernel.Item{}, tr...), g.ack(0)), append(append([]simkernel.Item{g.event()}, tr...), g.ownMsg(1000, g.bytesN(44), 0))...)}}}}, after...)})
+			if k == 1 || k == 5 || k == 9 {
+				// the same, the transport wrapping the errno
+				out = append(out, KCase{Kind: "history", BufLen: 64, WrapErrno: true, Ops: append([]KOp{
+					{K: "setratelimit", V: 7, WM: 1, Plans: []simkernel.Plan{{Items: append(append([]simkernel.Item{}, tr...), g.ack(13))}}}}, after...)})
+				out = append(out, KCase{Kind: "history", BufLen: 64, WrapErrno: true, Ops: append([]KOp{
+					{K: "setratelimit", V: 7, WM: 2, Plans: []simkernel.Plan{{Items: append(append([]simkernel.Item{}, tr...), g.ack(0))}}}, {K: "wait"}}, after...)})
+			}
 		}
 	}
 	// the same when every receive call takes a while: 9 failures of 70 ms each, 4 of 260 ms, 2 of 600 ms
